@@ -188,6 +188,10 @@ except Exception as e:
     print("REPLAY: real code raised", repr(e)); sys.exit(1)
 if r is True or r == True:
     print("REPLAY: property held on this input"); sys.exit(0)
+if isinstance(r, str) and r.lower().startswith("harness:"):
+    # the harness's own consistency checks (recorders, stand-ins, models) failed: it cannot drive this
+    # (possibly restructured) code -- a harness problem, never a property result
+    print("REPLAY: harness self-check failed:", r); sys.exit(3)
 print("REPLAY: property violated:", r); sys.exit(1)
 '''
 
